@@ -748,6 +748,9 @@ func (rr *RR) liveLocked() bool { return !rr.stopCalled && !rr.fatal }
 func (w *World) invalidDepsLocked(rec *RunRec) []map[string]interface{} {
 	var out []map[string]interface{}
 	for _, rd := range rec.Reads {
+		if rd.Res < 0 {
+			continue // TTL read: nothing was registered
+		}
 		if tr := w.tracked[rd.Res]; tr.invalidated {
 			out = append(out, map[string]interface{}{"cell": rd.Cell, "res": rd.Res, "read": rd.Ver})
 		}
